@@ -303,3 +303,8 @@ proof fn lemma_bwv_post<P: AsRef<[u8]>, V>(nfa: NfaBuilder<u8, V>, st: Seq<State
     if kind is Standard { lemma_searches_ok(nfa, st, idmap); }
     assert(nfa.states@.len() == num_states + 1 && st.len() >= nfa.states@.len());
 }
+
+// ---- `build`: the value of pattern j is the conversion of its position ----
+spec fn conv_ok<V: TryFrom<usize>>(j: int) -> bool { <V as vstd::std_specs::convert::TryFromSpec<usize>>::try_from_spec(j as usize).is_ok() }
+spec fn conv_val<V: TryFrom<usize>>(j: int) -> V { match <V as vstd::std_specs::convert::TryFromSpec<usize>>::try_from_spec(j as usize) { Ok(v) => v, Err(_) => arbitrary() } }
+spec fn indexed<P, V: TryFrom<usize>>(ps: Seq<P>) -> Seq<(P, V)> { Seq::new(ps.len(), |j: int| (ps[j], conv_val::<V>(j))) }
